@@ -2,6 +2,7 @@
 import ast
 import random
 import warnings
+from typing import Iterable
 
 from .. import astx, modgen, valgen
 from ..core import REPO
@@ -34,6 +35,14 @@ def with_global_where(ds):
     return ds.Where(lambda e: e.s == G)
 def with_global_many(ds):
     return ds.SelectMany(lambda e: e.g(G))
+def with_global_deep(ds):
+    return ds.Select(lambda e: e.jets.Select(lambda j: j.trks.Where(lambda t: t.pt > G)))
+def with_global_deep4(ds):
+    return ds.Select(lambda e: e.jets.Select(lambda j: j.trks.Select(lambda t: t.hits.Select(lambda h: (h.x, G)))))
+def make_closure_deep(v):
+    def inner(ds):
+        return ds.Select(lambda e: e.jets.Select(lambda j: j.trks.Where(lambda t: t.pt > v)))
+    return inner
 def make_closure(v):
     def inner(ds):
         return ds.Select(lambda e: (e.x, v))
@@ -132,8 +141,30 @@ def run_value(mon, ds, capmod, v, rnd):
     def c13_func(x: float, a=v) -> float: ...
 
     func_adl_callable()(c13_func)
-    tds = type(ds)(Evt)
+
+    # the same declaration reached through inheritance: plain subclass, and a diamond where only the second base overrides
+    class Base0:
+        def im(self, a="base-default") -> float: ...
+        def dm(self, a="base-default") -> float: ...
+
+    class Left(Base0):
+        pass
+
+    class Right(Base0):
+        def dm(self, a=v) -> float: ...
+
+    class Mid(Evt):
+        pass
+
+    class Evt2(Left, Right, Mid):
+        def mine(self) -> Iterable["Evt2"]: ...
+
+    Evt2.mine.__annotations__["return"] = Iterable[Evt2]
+    tds = type(ds)(Evt2)
     for entry, text, pick in [
+        ("default.method.inherited", "lambda e: e.m()", lambda s: s.query_ast.args[1].body.args[0]),
+        ("default.method.diamond", "lambda e: e.dm()", lambda s: s.query_ast.args[1].body.args[0]),
+        ("default.method.diamond-nested", "lambda e: e.mine().Select(lambda f: f.dm())", lambda s: s.query_ast.args[1].body.args[0].body.args[0]),
         ("default.method", "lambda e: e.m()", lambda s: s.query_ast.args[1].body.args[0]),
         ("default.function", "lambda e: c13_func(e.f(1))", lambda s: s.query_ast.args[1].body.args[1]),
     ]:
@@ -158,6 +189,9 @@ def run_value(mon, ds, capmod, v, rnd):
         ("capture.global.Where", capmod.with_global_where, lambda s: s.query_ast.args[1].body.comparators[0]),
         ("capture.global.SelectMany", capmod.with_global_many, lambda s: s.query_ast.args[1].body.args[0]),
         ("capture.closure.Select", capmod.make_closure(v), lambda s: s.query_ast.args[1].body.elts[1]),
+        ("capture.global.depth3", capmod.with_global_deep, lambda s: s.query_ast.args[1].body.args[0].body.args[0].body.comparators[0]),
+        ("capture.global.depth4", capmod.with_global_deep4, lambda s: s.query_ast.args[1].body.args[0].body.args[0].body.args[0].body.elts[1]),
+        ("capture.closure.depth3", capmod.make_closure_deep(v), lambda s: s.query_ast.args[1].body.args[0].body.args[0].body.comparators[0]),
     ]:
         if callable(v):
             continue
